@@ -317,7 +317,11 @@ class NumberNode(ElementaryNode[int]):
     def __init__(self, token: Token[str]):
         BaseNode.__init__(self, token.lineno, token.colno, token.filename)
         self.raw_value = token.value
-        self.value = int(token.value, base=0)
+        try:
+            self.value = int(token.value, base=0)
+        except ValueError:
+            # Python refuses to convert very long decimal literals
+            raise MesonException(f'Invalid number {token.value[:20]}...: too many digits', lineno=token.lineno, colno=token.colno)
         self.bytespan = token.bytespan
 
 @dataclass(unsafe_hash=True)
